@@ -21,11 +21,12 @@ OPT_NEXT = ("positive_next_speed", "positive_next_density", "positive_next_queue
 
 
 def engine_kind(engine):
-    mod = type(engine).__module__
-    if mod.endswith("engines.numpy"):
-        return "numpy"
-    if mod.endswith("engines.casadi"):
-        return engine.sym_type.__name__  # "SX" / "MX"
+    for cls in type(engine).__mro__:  # user-defined engines derived from the shipped ones count as their base
+        mod = cls.__module__
+        if mod.endswith("engines.numpy"):
+            return "numpy"
+        if mod.endswith("engines.casadi"):
+            return engine.sym_type.__name__  # "SX" / "MX"
     return "other:" + type(engine).__name__
 
 
